@@ -12,7 +12,7 @@
       observed per [hash()] call: the label of the value and which fields' values
       were hashed / keyed during that call.
 
-    The model is evaluated in its free interpretation: values are integers, the
+    The model is evaluated in its free interpretation: values are small naturals, the
     element hash is the identity, the tuple hash is the pair (salt, elements).
     Equality of free hashes therefore means "equal in EVERY interpretation of the
     oracles" ([Proofs.free_complete]) and is what the implementation must respect. *)
@@ -27,7 +27,8 @@ Definition entry_eqb (a b : entry) : bool :=
   match a, b with EGen, EGen | ENone, ENone | EUser, EUser | EAbsent, EAbsent => true | _, _ => false end.
 Definition probe_eqb (a b : probe) : bool :=
   match a, b with
-  | PReturns, PReturns | PTypeError, PTypeError | PAttributeError, PAttributeError => true
+  | PReturns, PReturns | PTypeError, PTypeError | PAttributeError, PAttributeError
+  | PNotProbed, PNotProbed => true
   | _, _ => false   (* POther never matches: an unexpected exception class is a discrepancy *)
   end.
 Definition outcome_eqb (a b : outcome) : bool :=
@@ -44,27 +45,41 @@ Proof.
   - destruct e, e'; cbn; try discriminate; reflexivity.
 Qed.
 
-(** ** the free interpretation *)
-Definition fkey (k : keyid) (v : Z) : Z := match k with K0 => Z.modulo v 2 | K1 => 0%Z end.
-Definition fhres := (Z * list Z)%type.
-Definition fH (s : Z) (es : list Z) : fhres := (s, es).
-Definition fhres_eqb (a b : fhres) : bool :=
-  Z.eqb (fst a) (fst b) && list_eqb Z.eqb (snd a) (snd b).
+(** The property itself, on the observation alone: an attrs class whose resolved
+    [__hash__] is not [None] hashes without raising. *)
+Definition resolved_hashable (c : cfg) (e : entry) : bool :=
+  match e with
+  | EGen | EUser => true
+  | ENone => false
+  | EAbsent => match b_hash (c_base c) with BHNone => false | _ => true end
+  end.
+Definition total_ok (c : cfg) (seen : outcome) : bool :=
+  match seen with
+  | OClass e p => if resolved_hashable c e then probe_eqb p PReturns || probe_eqb p PNotProbed else true
+  | _ => true
+  end.
 
-Definition fcompute (c : cls) (vs : list Z) : fhres :=
-  compute Z fkey Z (fun v => v) fhres fH c vs.
-Definition feq_fields (c : cls) (xs ys : list Z) : bool :=
-  eq_fields Z fkey Z.eqb (flds c) xs ys.
-Definition frun (c : cls) (start : list Z) (ops : list (op Z)) : list (mobs fhres) :=
-  run Z fkey Z (fun v => v) fhres fH c (init Z fhres c start) ops.
+(** ** the free interpretation *)
+Definition fkey (k : keyid) (v : nat) : nat := match k with K0 => Nat.modulo v 2 | K1 => 0 end.
+Definition fhres := (Z * list nat)%type.
+Definition fH (s : Z) (es : list nat) : fhres := (s, es).
+Definition fhres_eqb (a b : fhres) : bool :=
+  Z.eqb (fst a) (fst b) && list_eqb Nat.eqb (snd a) (snd b).
+
+Definition fcompute (c : cls) (vs : list nat) : fhres :=
+  compute nat fkey nat (fun v => v) fhres fH c vs.
+Definition feq_fields (c : cls) (xs ys : list nat) : bool :=
+  eq_fields nat fkey Nat.eqb (flds c) xs ys.
+Definition frun (c : cls) (start : list nat) (ops : list (op nat)) : list (mobs fhres) :=
+  run nat fkey nat (fun v => v) fhres fH c (init nat fhres c start) ops.
 
 (** ** observations *)
 Inductive hobs := HVal (label : nat) (hashed keyed : list nat) | HDone | HRaised.
 
 Inductive case :=
 | CA (c : cfg) (seen : outcome)
-| CM (c : cls) (insts : list (list Z)) (seen_eq : list (nat * nat)) (seen_lab : list nat)
-| CH (c : cls) (start : list Z) (ops : list (op Z)) (seen : list hobs).
+| CM (c : cls) (insts : list (list nat)) (seen_eq : list (nat * nat)) (seen_lab : list nat)
+| CH (c : cls) (start : list nat) (ops : list (op nat)) (seen : list hobs).
 
 (** every field that takes part in the hash takes part in equality *)
 Definition hash_within_eq (c : cls) : bool :=
@@ -73,7 +88,7 @@ Definition hash_within_eq (c : cls) : bool :=
 Definition all_pairs (n : nat) : list (nat * nat) :=
   flat_map (fun i => map (fun j => (i, j)) (seq 0 n)) (seq 0 n).
 
-Definition pred_eq (c : cls) (insts : list (list Z)) : list (nat * nat) :=
+Definition pred_eq (c : cls) (insts : list (list nat)) : list (nat * nat) :=
   filter (fun p => feq_fields c (nth (fst p) insts []) (nth (snd p) insts []))
          (all_pairs (length insts)).
 
@@ -92,7 +107,7 @@ Fixpoint respects (hl : list (fhres * nat)) : bool :=
   | (h, l) :: r => respects_one h l r && respects r
   end.
 
-Definition check_matrix (c : cls) (insts : list (list Z)) (seen_eq : list (nat * nat))
+Definition check_matrix (c : cls) (insts : list (list nat)) (seen_eq : list (nat * nat))
            (seen_lab : list nat) : bool :=
   Nat.eqb (length seen_lab) (length insts)
   && forallb (fun vs => Nat.eqb (length vs) (length (flds c))) insts
@@ -117,7 +132,7 @@ Fixpoint match_hist (c : cls) (ms : list (mobs fhres)) (ss : list hobs)
   | _, _ => None
   end.
 
-Definition check_hist (c : cls) (start : list Z) (ops : list (op Z)) (seen : list hobs) : bool :=
+Definition check_hist (c : cls) (start : list nat) (ops : list (op nat)) (seen : list hobs) : bool :=
   Nat.eqb (length start) (length (flds c)) &&
   match match_hist c (frun c start ops) seen with
   | Some hl => respects hl
@@ -126,7 +141,7 @@ Definition check_hist (c : cls) (start : list Z) (ops : list (op Z)) (seen : lis
 
 Definition check_case (k : case) : bool :=
   match k with
-  | CA c seen => outcome_eqb (outcome_of c) seen
+  | CA c seen => outcome_eqb (outcome_of c) seen && total_ok c seen
   | CM c insts se sl => check_matrix c insts se sl
   | CH c start ops seen => check_hist c start ops seen
   end.
@@ -145,4 +160,4 @@ Definition model_of (k : case) : mview :=
   end.
 
 Lemma check_case_sound_A c seen : check_case (CA c seen) = true -> seen = outcome_of c.
-Proof. cbn. intros H. symmetry. now apply outcome_eqb_sound. Qed.
+Proof. cbn. intros H. apply andb_true_iff in H as [H _]. symmetry. now apply outcome_eqb_sound. Qed.
